@@ -9,6 +9,14 @@ PROPS = {
         "assumptions": ["blob store behaves like GCS (memstore) or is localfs on tmpfs"],
         "vmem_gb": 40,
     },
+    "C02": {
+        "pkg": "c02", "level": "exploration", "offline": "pyoracle/blake2tree.py",
+        "rule": "Case = a sequence of Puts into one shared blob store at one leaf size: (chunkings) the same content stored three times through different source chunkings and flush concurrencies 1..16, for every length class {0,1,63,64,65,k*leaf-1,k*leaf,k*leaf+1 (k=1..6),random} at leaf 64/65/100 (sampled at 4 KiB, 64 KiB, 1-5 MiB); (history) 3..8 Puts of fresh, identical, prefix, last-byte-flipped, zero-extended and leaf-sharing contents, sometimes with an empty blob pre-planted under a key about to be written, with and without store-side CRC. Every returned key of a regenerable content is re-computed by an independent BLAKE2b tree implementation in Python hashlib (anchored: it must reproduce all testdata/roots/* from testdata/original/* at leaf 1.5 MiB, else inconclusive). Non-trivial: all Puts succeeded; distinct by leaf, item list and store configuration.",
+        "technique": "runtime monitoring: differential key check against an independent BLAKE2b tree-mode implementation (Python hashlib) plus store-diff and store-log monitors on repeated/overlapping Puts",
+        "level_text": "Keys produced by the real writer for hundreds of contents, chunkings and concurrency levels are compared with an independently written tree hash that is itself pinned by the checked-in testdata; store snapshots and the store event log show that duplicates leave existing objects untouched. Differential exploration is the right level for a hash layout over unbounded inputs.",
+        "level_note": "Trusted: Python hashlib.blake2b tree parameters, the testdata/roots anchor, memstore. Contents above 2 MiB are sent to the Python oracle only for the first item of a case (cost).",
+        "assumptions": ["testdata/roots pins the historical layout", "memstore CRC32C attribute as GCS provides it (or absent with no_crc)"],
+    },
     "C20": {
         "pkg": "c20", "level": "exploration",
         "rule": "Five families of seeded sub-cases, run in blocks: (paths) every GetArchivePathTo* builder on valid names (unicode letters/digits/hyphen, connector punctuation for labels, KSUIDs incl. min/max, user-named splits, indices incl. 2^63 and 2^64-1) parsed back with GetArchivePathComponents and entered in a path->identity map; (consumable) GetConsumablePathTo* vs GetConsumableStorePathMetadata; (generated) IsGeneratedFile vs an independent first-component predicate on reserved names and near misses; (descriptors) randomly populated descriptors of 8 types through yaml marshal/unmarshal; (validation) ValidateRepo/ValidateLabel vs the documented alphabets. distinct_nontrivial counts distinct generated paths / names / serialized descriptors.",
